@@ -21,7 +21,6 @@ namespace TW
 section
 variable {K : Type} [Add K] [Sub K] [Mul K] [Div K] [Neg K] [NatCast K]
 
-def halfK : K := oneK / ((2 : Nat) : K)
 
 /-! ### `_tp2tp` -/
 
